@@ -290,8 +290,9 @@ class Initiator(DataExchangeProtocol):
 
         def ATN():
             pdu_type = DEP_REQ.Attention
-            pfb = DEP_REQ.PFB(pdu_type, nad=False, did=False, pni=0)
-            return DEP_REQ(pfb, did=None, nad=None, data=None)
+            pfb = DEP_REQ.PFB(pdu_type, self.nad is not None,
+                              self.did is not None, pni=0)
+            return DEP_REQ(pfb, self.did, self.nad, data=None)
 
         def request_attention(self, n_retry_atn, rwt, deadline):
             req = ATN()
